@@ -57,6 +57,14 @@ def handle (inp out : List String) : String :=
               (out.take 2 ++ [s!"cols#{csI.length}", s!"rows#{((parseLL rs).getD []).length}"]) prop
     | _, _, _, _ => "BADLINE c06 parse"
   | ["count"], _ => verdict [toString Dvbs2Tables.codes.length] out none
+  | ["enc", name], [acc, girth] =>
+    -- C06.encoder_staircase: every DVB-S2 matrix takes the linear-time staircase branch of `Encoder::from_h`;
+    -- C06.girth_R1_2: the normal-frame rate-1/2 matrix has girth 6
+    let prop : Option String :=
+      if acc ≠ "Staircase:codewords-ok" then some s!"not-accepted-by-the-linear-time-staircase-encoder ({acc})"
+      else if name == "R1_2" ∧ girth ≠ "Some(6)" then some s!"documented-girth-6-not-reported ({girth})"
+      else none
+    verdict ["Staircase:codewords-ok", if name == "R1_2" then "Some(6)" else girth] out prop
   | _, _ => "BADLINE c06 arity"
 
 end LdpcV.Driver.C06
@@ -133,6 +141,14 @@ def handle (inp out : List String) : String :=
         else if model ≠ [nr, nc, rs, cs] then some "differs-from-pinned-reference-matrix" else none
       | none => some "unparsable"
     verdict (model.take 2) (out.take 2) prop
+  | ["enc", _rate, _k], [acc] =>
+    -- C07.ar4ja_tail_rank_native + C02: the last 3M columns are invertible, so `Encoder::from_h` builds (dense branch) and encodes to codewords
+    let prop : Option String :=
+      if acc ≠ "DenseGenerator:codewords-ok" then some s!"systematic-encoder-does-not-accept-the-matrix ({acc})" else none
+    verdict ["DenseGenerator:codewords-ok"] out prop
+  | ["girth", _what], [g] =>
+    -- C07Girth.c2_girth_six / ar4ja_r12_k1024_girth_six
+    verdict ["Some(6)"] out (if g ≠ "Some(6)" then some s!"documented-girth-6-not-reported ({g})" else none)
   | _, _ => "BADLINE c07 arity"
 
 end LdpcV.Driver.C07
